@@ -17,13 +17,14 @@ import (
 type genFn func(r *rand.Rand, e *vh.Env) []vh.Case
 
 var gens = map[string]genFn{
-	"round":   genRound,   // typed writes then the same typed reads (CRound) + truncations of the same stream (CTrunc)
-	"hist":    genHist,    // arbitrary histories of writes / mismatched reads / rewrites / queries (CHist)
-	"arb":     genArb,     // crafted and arbitrary bytes as decoder input (CHist with init)
-	"rewrite": genRewrite, // Bytes(); ReWrite / ReWriteU32; Bytes()  (CReWrite)
-	"stream":  genStream,  // ReaderX over a fragmenting source of several concrete reader types vs. BufferX (CStream)
-	"large":   genLarge,   // values of 64 KiB and more through both readers, compressed case terms (CLarge)
-	"hold":    genHold,    // results of reads kept uncopied while the buffer is reused, looked at again at the end (CHold)
+	"round":    genRound,    // typed writes then the same typed reads (CRound) + truncations of the same stream (CTrunc)
+	"hist":     genHist,     // arbitrary histories of writes / mismatched reads / rewrites / queries (CHist)
+	"arb":      genArb,      // crafted and arbitrary bytes as decoder input (CHist with init)
+	"rewrite":  genRewrite,  // Bytes(); ReWrite / ReWriteU32; Bytes()  (CReWrite)
+	"stream":   genStream,   // ReaderX over a fragmenting source of several concrete reader types vs. BufferX (CStream)
+	"large":    genLarge,    // values of 64 KiB and more through both readers, compressed case terms (CLarge)
+	"parallel": genParallel, // 8 goroutines, each with private instances over its own bytes, decoding at the same time (CLarge)
+	"hold":     genHold,     // results of reads kept uncopied while the buffer is reused, looked at again at the end (CHold)
 }
 
 // order matters for reproducibility (map iteration is random)
@@ -54,13 +55,14 @@ func main() {
 		// the large-value cases are expensive to evaluate: they are spread over the case files, one every few hundred cases
 		pendingLarge := largeCorpus()
 		vol := map[string]int{
-			"round":   e.Scale(160, 2000),
-			"hist":    e.Scale(500, 8000),
-			"arb":     e.Scale(500, 8000),
-			"rewrite": e.Scale(300, 4000),
-			"stream":  e.Scale(700, 12000),
-			"hold":    e.Scale(250, 4000),
-			"large":   e.Scale(8, 60),
+			"round":    e.Scale(160, 2000),
+			"hist":     e.Scale(500, 8000),
+			"arb":      e.Scale(500, 8000),
+			"rewrite":  e.Scale(300, 4000),
+			"stream":   e.Scale(700, 12000),
+			"hold":     e.Scale(250, 4000),
+			"large":    e.Scale(8, 60),
+			"parallel": e.Scale(3, 20),
 		}
 		if e.Search && e.Focus != "" {
 			f := strings.SplitN(e.Focus, "/", 2)[0]
@@ -81,6 +83,13 @@ func main() {
 				pendingLarge = append(pendingLarge, c)
 			}
 		}
+		for i := 0; i < vol["parallel"]; i++ {
+			sub := e.Rnd.Int63()
+			for _, c := range genParallel(rand.New(rand.NewSource(sub)), e) {
+				c.Replay = fmt.Sprintf("parallel:%d", sub)
+				pendingLarge = append(pendingLarge, c)
+			}
+		}
 		counts := map[string]int{}
 		emitted := 0
 		for _, name := range genOrder {
@@ -91,7 +100,7 @@ func main() {
 					counts[c.Class]++
 					e.Emit(c)
 					emitted++
-					if emitted%250 == 0 && len(pendingLarge) > 0 {
+					if emitted%100 == 0 && len(pendingLarge) > 0 {
 						e.Emit(pendingLarge[0])
 						pendingLarge = pendingLarge[1:]
 					}
@@ -101,7 +110,7 @@ func main() {
 		for _, c := range pendingLarge {
 			e.Emit(c)
 		}
-		e.Meta["generator"] = "c10/v3"
+		e.Meta["generator"] = "c10/v4"
 		e.Meta["experiments"] = vol
 		e.Meta["string_prefix_cap_stream"] = prefixCap
 	})
